@@ -5,7 +5,7 @@ Each case in cases/*.json is a small source edit of /repo applied to a scratch g
 /tmp (never to /repo): kind=mutant must make the named property's check report the named rule;
 kind=equivalent (a behaviour-preserving refactoring) must leave it silent. Edits are
 {file, find, replace} (literal, must match exactly once unless count given) or a unified diff in "patch".
-Usage: selftest.py [-j N] [-k substring] [--keep]
+Usage: selftest.py [-j N] [-k substring[,substring...]] [--keep]
 """
 import json, os, subprocess, sys, glob, shutil, tempfile, argparse, concurrent.futures as cf
 
@@ -75,7 +75,7 @@ def main():
     for f in sorted(glob.glob(os.path.join(ROOT, 'cases', '*.json'))):
         for c in json.load(open(f)):
             c['_file'] = os.path.basename(f)
-            if a.k in c['id'] or a.k in c['property']:
+            if any(k in c['id'] or k in c['property'] for k in a.k.split(',')):
                 cases.append(c)
     ok = True
     res = []
